@@ -801,18 +801,26 @@ def main(ctx):
                 'order + batches; pc/inv/lte: exact rational tensors with prescribed spectra '
                 '(distinct, double, triple, zero, rank-1, near-singular, tiny gap) rotated by '
                 'integer orthogonal frames, plus random dyadic tensors; align: random shapes, '
-                '1-5 matrices, csr/coo, empty/full/stored-zero/sign patterns.  A case is '
+                '1-5 matrices, csr / non-canonical csr / coo (duplicated entries in the last two), '
+                'empty/full/stored-zero/sign patterns, huge shapes, a bit-exact stream, a malformed '
+                'stream (one matrix of another shape -> ValueError, the empty list -> IndexError).  A case is '
                 'non-trivial when it has at least one non-zero component / stored entry; '
                 'distinct = distinct (kind, inputs, options)')
     ctx.trusted += [
-        'translator /verif/translate/c17_tensor.py (fail-closed Python-ast -> Gallina, per batch '
-        'item; signature table of parameter kinds) validated on every run by the correspondence',
+        'translator /verif/translate/c17_tensor.py (Python-ast -> Gallina, per batch item; signature '
+        'table of parameter kinds; module-level constants evaluated, private helpers inlined) '
+        'validated on every run by the correspondence; when it cannot read a region the committed '
+        'baseline translation is the hand model and the correspondence is widened (notes: tie)',
+        'translator /verif/translate/c17_align.py (key expression of align_nnz and five decisions, '
+        'names resolved through closures / helpers) validated by the entry-level correspondence',
         'numpy.linalg.eigh (LAPACK): premise `eigh_ok` of the theorems; in the correspondence the '
         'model runs with the decomposition LAPACK returned to femio (exact rationals)',
-        'hand model of align_nnz as of /repo 0213dd3 (Model.union_pattern, searchsorted, add_at, '
-        'place), pinned by the correspondence incl. non-canonical CSR inputs',
-        'harness glue: float <-> exact rational (float.as_integer_ratio), canonical CSR '
-        'construction, monkey-patched eigh recorder (harness/c17_impl.py)',
+        'hand model of align_nnz as of /repo 0213dd3 (Model.union_pattern, searchsorted, add_at, place; '
+        'AlignEntry: formats, shape check, tocsr, union in (row, col) order, result construction), '
+        'pinned by the exact correspondence at both levels incl. non-canonical CSR / COO inputs',
+        'harness glue: float <-> exact rational (float.as_integer_ratio), construction of the scipy '
+        'matrices from the entry lists and the storage order handed to the model (spm_list), '
+        'monkey-patched eigh recorder (harness/c17_impl.py)',
     ]
     ctx.assumptions += [
         'floating point is modelled as exact real arithmetic (x/2*2, (s+D)-D, matmul): theorems '
@@ -880,6 +888,11 @@ def main(ctx):
     corr_built = False
     if tie_ok:
         proof_ok, log = ctx.build_props(f'{PID}/Props.v', extra_targets=[f'{PID}/Corr.vo'])
+        if degraded or not align_T:
+            for o in ctx.obligations:
+                o['note'] = ((o.get('note') or '') + ' checked against the BASELINE translation of ' +
+                             ('the tensor helpers' if degraded else 'the align_nnz key/decisions') +
+                             ' (hand model; tie = widened correspondence, see notes.tie)').strip()
         if not proof_ok:
             ctx.notes['build_log_tail'] = log[-2500:]
             ok2, log2, _ = lib.coq_make([f'{PID}/Corr.vo'])
